@@ -173,6 +173,16 @@ EXTRA_FEATURES: dict[str, float] = {
     # the same around function calls: values inside a function that is called several times are called ``t`` (and
     # ``t_2``), values where the calls sit are called ``t``, ``t_2``, ``t_3``, ``t_2_2`` ... (functions are name spaces)
     "fn_inner_name_family": 0.10,
+    # ROLE and PAYLOAD of a value disagree in a legal way (``const_value`` of a value that is not a registered
+    # initializer is a hint that serialisation ignores): a required main-graph input that carries a const_value -
+    # built that way, or registered as an initializer and popped from ``graph.initializers`` again - next to a real
+    # initializer with the same bytes; fed values differ from the hint
+    "input_const_hint": 0.16,
+    # the same for FORMAL inputs: the inputs of a Loop body and of a model-local function
+    "formal_input_const_hint": 0.10,
+    # node outputs that carry a (truthful) const_value: Constant outputs and Neg / Identity of them, in the main
+    # graph and in an If branch, next to an initializer with the same bytes
+    "node_output_const_hint": 0.10,
 }
 ALL_FEATURES: dict[str, float] = {**FEATURES, **EXTRA_FEATURES}
 _FN_FEATURES = ("fn", "fn_attr", "fn_default_used", "fn_nested", "fn_overload")
@@ -2112,6 +2122,135 @@ class _Builder:
             else:
                 self.observe += self._hide(m, self.gen_call(m, rng, f, inputs=[arg, cond]))
 
+    # ---- planters for values whose ROLE and PAYLOAD disagree in a legal way (EXTRA features): ``const_value`` on a value
+    # ---- that is not a registered initializer is a hint which serialisation ignores - the value keeps its role
+    def _const_hint(self, tv: _TV, rng, arr: np.ndarray | None = None) -> np.ndarray:
+        arr = self.rand_array(rng, tv.dt, tv.shape) if arr is None else arr
+        tv.v.const_value = self._tensor(np.array(arr, dtype=_NP[tv.dt]).reshape(tv.shape), tv.v.name, rng)
+        return arr
+
+    def plant_input_const_hint(self, rng):
+        """Required main-graph inputs that carry a ``const_value`` without being registered initializers: built that
+        way (``hint_only``), or registered as an initializer next to being an input and popped from
+        ``graph.initializers`` on the finished model (``popped`` - the Value keeps its tensor).  Often a real
+        initializer holds the same bytes.  The values fed at run time are unrelated to the hint."""
+        dec = random.Random(rng.random())  # variant decisions: independent of pool sizes
+        m = self.main
+        for _ in range(dec.choice([1, 1, 2])):
+            dt, shape = dec.choice([(F32, (2, 3)), (F32, (3,)), (I64, (2, 3)), (F32, ())])
+            how = dec.choice(["hint_only", "hint_only", "popped"])
+            with_twin = dec.random() < 0.5
+            uses = dec.sample(["binary", "identity", "captured", "output"], dec.choice([1, 2, 2, 3]))
+            op = dec.choice(["Add", "Mul", "Sub"])
+            x = self._x(rng, dt, (2, 3))
+            arr = self.rand_array(rng, dt, shape)
+            if how == "popped":
+                h = self.add_init(m, rng, dt, shape, arr.copy())
+                self.init_inputs.append(h)
+                self.after_build.append(lambda model, name=h.v.name: model.graph.initializers.pop(name))
+            else:
+                h = self.add_input(m, dt, shape)
+                self._const_hint(h, rng, arr.copy())
+            self._hide(m, [h])
+            twin = self.add_init(m, rng, dt, shape, arr.copy()) if with_twin else None
+            if "binary" in uses or uses == ["output"]:
+                for w in (h, twin):
+                    if w is not None:
+                        self.observe += self.emit(m, op, [x, w], None, [(dt, (2, 3))])
+            if "identity" in uses:
+                self.observe += self.emit(m, "Identity", [h], None, [(dt, shape)], typed=True)
+                if twin is not None:
+                    self.observe += self.emit(m, "Identity", [twin], None, [(dt, shape)], typed=True)
+            if "captured" in uses:
+                self.observe += self.gen_if(m, rng, then_hook=lambda s, h=h, x=x, dt=dt: [
+                    self.emit(s, "Add", [x, h], None, [(dt, (2, 3))], typed=True)[0]], out_types=[(dt, (2, 3))])
+            if "output" in uses:
+                self.extra_outputs.append(h)
+
+    def plant_formal_input_const_hint(self, rng):
+        """FORMAL inputs that carry a ``const_value``: the inputs of a Loop body (iteration number, condition, carried
+        value) - of a Loop in the main graph or in the body of a model-local function - and the inputs of a
+        model-local function.  The hint is unrelated to what the loop / the call site passes."""
+        dec = random.Random(rng.random())  # variant decisions: independent of pool sizes
+        m = self.main
+        x = self._x(rng)
+        where = dec.choice(["loop", "loop", "fn", "both", "fn_loop", "fn_loop"])
+        hinted = dec.sample(["iter", "cond", "carry"], dec.choice([1, 2, 3]))
+        with_twin = dec.random() < 0.4
+
+        def hinted_loop(sc, v0, factor):
+            """A Loop in ``sc`` whose body inputs carry hints; the body computes with all of them."""
+            def body(s, v_in):
+                it, cin = s.inputs[0], s.inputs[1]
+                arr = self.rand_array(rng, v_in.dt, v_in.shape)
+                if "carry" in hinted:
+                    self._const_hint(v_in, rng, arr.copy())
+                if "iter" in hinted:
+                    self._const_hint(it, rng, np.array(dec.randint(2, 9), np.int64))
+                if "cond" in hinted:
+                    self._const_hint(cin, rng, np.array(dec.random() < 0.5))
+                step = self.emit(s, "Cast", [it], {"to": int(F32.value)}, [(F32, ())])[0]
+                cur = self.emit(s, "Add", [v_in, step], None, [(F32, (2, 3))])[0]
+                if with_twin:  # a real initializer of the body with the bytes of the carried value's hint
+                    cur = self.emit(s, "Sub", [cur, self.add_init(s, rng, v_in.dt, v_in.shape, arr.copy())], None, [(F32, (2, 3))])[0]
+                return self.emit(s, "Mul", [cur, factor], None, [(F32, (2, 3))], typed=True)[0]
+            return self.gen_loop(sc, rng, v0=v0, body_hook=body)
+
+        if where in ("loop", "both"):
+            self.observe += self._hide(m, hinted_loop(m, x, x))
+        if where in ("fn", "both", "fn_loop"):
+            two = dec.random() < 0.5
+            in_types = [(F32, (2, 3)), (F32, (3,))] if two else [(F32, (2, 3))]
+
+            def fbody(s):
+                if where != "fn_loop" or dec.random() < 0.5:
+                    for t in s.inputs:
+                        self._const_hint(t, rng)
+                cur = self.emit(s, dec.choice(["Neg", "Abs"]), [s.inputs[0]])[0]
+                if two:
+                    cur = self.emit(s, "Add", [cur, s.inputs[1]])[0]
+                if where == "fn_loop":  # the function's formal input is captured by the Loop body
+                    cur = hinted_loop(s, cur, s.inputs[0])[0]
+                return [self.emit(s, "Mul", [cur, s.inputs[0]])[0]]
+            fn = self.gen_function(rng, body_hook=fbody, in_types=in_types, with_attrs=False)
+            args = [x] + ([self.need(m, rng, F32, (3,))] if two else [])
+            self.observe += self._hide(m, self.gen_call(m, rng, fn, inputs=args) or [])
+            if dec.random() < 0.5:  # a second call, inside a branch
+                y = self.emit(m, "Abs", [x])[0]
+                self.observe += self._hide(m, self.gen_if(
+                    m, rng, then_hook=lambda s: [self.gen_call(s, rng, fn, inputs=[y] + args[1:], typed=True)[0]],
+                    out_types=[(F32, (2, 3))]))
+
+    def plant_node_output_const_hint(self, rng):
+        """Node outputs that carry a TRUTHFUL ``const_value``: the output of a Constant node and of Neg / Identity of it,
+        in the main graph and in an If branch; sometimes an initializer holds the same bytes, sometimes the hinted
+        Constant output is a graph output."""
+        dec = random.Random(rng.random())  # variant decisions: independent of pool sizes
+        m = self.main
+        dt, shape = dec.choice([(F32, (2, 3)), (F32, (3,)), (F32, ()), (I64, (2, 3)), (I64, ())])
+        x = self._x(rng, dt, (2, 3))
+        arr = self.rand_array(rng, dt, shape)
+
+        def chain(s, typed=False):
+            c = self.const(s, rng, dt, shape, arr.copy())
+            self._const_hint(c, rng, arr.copy())
+            follow = dec.choice(["Neg", "Identity", None])
+            d = c
+            if follow is not None:
+                d = self.emit(s, follow, [c], None, [(dt, shape)])[0]
+                self._const_hint(d, rng, -arr if follow == "Neg" else arr.copy())
+            return c, self.emit(s, dec.choice(["Add", "Mul"]), [x, d], None, [(dt, (2, 3))], typed=typed)[0]
+        c, y = chain(m)
+        self._hide(m, [c])
+        self.observe.append(y)
+        if dec.random() < 0.3:
+            self.observe.append(c)
+        if dec.random() < 0.5:
+            w = self.add_init(m, rng, dt, shape, arr.copy())
+            self.observe += self.emit(m, "Sub", [x, w], None, [(dt, (2, 3))])
+        if dec.random() < 0.5:
+            self.observe += self.gen_if(m, rng, then_hook=lambda s: [chain(s, typed=True)[1]], out_types=[(dt, (2, 3))])
+
     # ---- assembly --------------------------------------------------------------------------------
     PLANT_ORDER = [
         "consts_all_forms", "dup_expr", "near_dup_attr", "near_dup_outcount", "near_dup_default", "signed_zero",
@@ -2122,12 +2261,14 @@ class _Builder:
         "near_dup_const_rank", "dup_init_is_input", "fn_called_from_subgraph",
         "fn_attr_forward_renamed", "fn_scope_name_reuse", "fn_subgraph_formal_name_reuse",
         "const_strings", "string_inits", "fn_optional_inputs", "fn_foreign_opset", "random_twins", "random_twins_unlisted",
-        "symbolic_dims", "subgraph_init_name_family", "subgraph_init_returned_name_family", "fn_inner_name_family", "out_alias_input", "out_init", "out_dup",
+        "symbolic_dims", "subgraph_init_name_family", "subgraph_init_returned_name_family", "fn_inner_name_family",
+        "input_const_hint", "formal_input_const_hint", "node_output_const_hint", "out_alias_input", "out_init", "out_dup",
     ]
 
     def build(self) -> tuple[ir.Model, dict]:
         rng, m = self.rng, self.main
         self.init_inputs: list[_TV] = []
+        self.after_build: list = []  # callables(model) run on the finished model (planters that edit it afterwards)
         self.dup_outputs = 0
         self.symbolic_outputs: dict[int, ir.Shape] = {}  # graph outputs that keep a symbolic declared shape
         # functions first (call sites need them)
@@ -2191,6 +2332,8 @@ class _Builder:
             graph.doc_string = "main graph doc"
             graph.metadata_props["vf.graph"] = "main"
         model = ir.Model(graph, ir_version=10, producer_name="vfpy.gen_exec", functions=self.functions)
+        for hook in self.after_build:
+            hook(model)
         n_sub = sum(1 for _ in model.graphs()) - 1
         info = {
             "seed": self.seed, "size": self.size, "features": sorted(self.feats), "planted": list(self.planted),
